@@ -37,7 +37,7 @@ func init() {
 	workers["c19w"] = c19Worker
 }
 
-const c19Alphabet = "OPSabc"
+const c19Alphabet = "OPSJabc"
 
 var c19Advance = map[byte]time.Duration{'a': 100 * time.Millisecond, 'b': 1900 * time.Millisecond, 'c': 2100 * time.Millisecond}
 
@@ -173,7 +173,7 @@ type c19Viol struct {
 // c19Execute runs one event string and returns the violations.
 func c19Execute(capPath, events string, trace bool) (viols []c19Viol, err error) {
 	vtime.Reset(time.Date(2024, 1, 2, 3, 4, 5, 0, time.UTC))
-	ts, err := newTermSession(capPath, true, nil)
+	ts, err := newTermSession(capPath, true, []byte("PREVIEW-BYTES of the insert\n"))
 	if nil != err {
 		return nil, err
 	}
@@ -203,6 +203,9 @@ func c19Execute(capPath, events string, trace bool) (viols []c19Viol, err error)
 			settle()
 		case 'S':
 			ts.och <- opshell.CLine{Line: marker, Color: opshell.ColorGreen}
+			settle()
+		case 'J':
+			ts.sh.VerifKey(0x0A) /* Ctrl+J: show locally what Ctrl+I would send. */
 			settle()
 		default:
 			vtime.Advance(c19Advance[e], settle)
@@ -262,6 +265,15 @@ func c19Execute(capPath, events string, trace bool) (viols []c19Viol, err error)
 			}
 			if 0 != nMuting+nAlready+nUnmuting {
 				add("announcement-at-output", fmt.Sprintf("an announcement printed in reaction to shell output: %q", out), i)
+			}
+		case 'J':
+			/* A local status message: shown whether muted or not, and no
+			concern of the mute timer. */
+			if 1 != strings.Count(out, "Would have sent") || 1 != strings.Count(out, "PREVIEW-BYTES of the insert") {
+				add("preview-lost", fmt.Sprintf("Ctrl+J's preview was not displayed in full (model: %s), terminal shows %q", before, out), i)
+			}
+			if 0 != nMuting+nAlready+nUnmuting {
+				add("announcement-at-preview", fmt.Sprintf("a mute announcement printed in reaction to Ctrl+J: %q", out), i)
 			}
 		case 'S':
 			if 1 != strings.Count(out, marker) {
@@ -392,7 +404,7 @@ func c19(r *ev.Result, tier string) {
 	if !isQuick(tier) {
 		L = 8
 	}
-	r.Rule = fmt.Sprintf("every event string of length %d over {O: Ctrl+O, P: plain chunk, S: status line, a: +0.1 s, b: +1.9 s, c: +2.1 s} executed on the real opshell.Shell (built by the real New on a pty, Do running, virtual clock), "+
+	r.Rule = fmt.Sprintf("every event string of length %d over {O: Ctrl+O, P: plain chunk, S: status line, J: Ctrl+J preview, a: +0.1 s, b: +1.9 s, c: +2.1 s} executed on the real opshell.Shell (built by the real New on a pty, Do running, virtual clock), "+
 		"the oracle evaluated after every step (so every shorter string is covered as a prefix); states = distinct event prefixes, transitions = steps executed, traces = complete executions", L)
 	base := ev.Scratch("c19-")
 	defer os.RemoveAll(base)
@@ -444,7 +456,7 @@ func c19(r *ev.Result, tier string) {
 	}
 	/* Lock interleavings: Ctrl+O (and Ctrl+I) arriving while output or a
 	status line is being written, under every order of the lock steps. */
-	scenarios := []string{"KP", "KS", "MKP", "MKS", "KPS", "IK", "IP"}
+	scenarios := []string{"KP", "KS", "MKP", "MKS", "KPS", "IK", "IP", "MTP", "MTPS", "MTK"}
 	parallel(len(scenarios), func(i int) {
 		out, err := runCttyWorker("c19locks", scenarios[i], base)
 		var res struct {
